@@ -23,6 +23,9 @@ class FoxOptimization(OptimizationAbstract):
         super().__init__(config, debug)
         self.__mint = np.inf
 
+    def before_initialization(self):
+        self.__mint = np.inf
+
     def set_config_parameters(self, parameters: dict[str, Any]):
         self._config = FoxOptimizationConfig(**parameters)
 
